@@ -386,6 +386,10 @@ def run_config(cfg, debug=True, processes=1, trace=True, workdir=None, keep_inpu
         files, in_dir, out_dir = materialize(cfg, root)
     job = {"files": files, "debug": debug, "trace": trace, "cfg": cfg,
            "trace_path": os.path.join(root, "trace.json")}
+    if cfg.get("pre_run_hook"):
+        # optional "module:function" the worker calls with the job before the run (observation-only
+        # wrappers of a single check, e.g. harness.adapters.sensor_trace:install); absent by default
+        job["pre_run_hook"] = cfg["pre_run_hook"]
     job_path = os.path.join(root, "job.json")
     with open(job_path, "w") as fh:
         json.dump(job, fh)
